@@ -3,7 +3,8 @@ import itertools
 
 from qce_circuit.connectivity.intrf_channel_identifier import QubitIDObj
 from qce_circuit.language import InitialStateContainer, InitialStateEnum
-from qce_circuit.library.repetition_code.circuit_components import RepetitionCodeDescription
+from qce_circuit.library.repetition_code.circuit_components import RepetitionCodeDescription, CompositeRepetitionCodeDescription
+from qce_circuit.connectivity.intrf_channel_identifier import EdgeIDObj
 from qce_circuit.library.repetition_code.circuit_constructors import construct_repetition_code_circuit, construct_repetition_code_circuit_simplified
 from qce_circuit.library.state_calibration.circuit_constructors import construct_calibration_circuit
 from qce_circuit.library.state_calibration.circuit_components import CalibrationDescription, CalibrateType
@@ -58,6 +59,17 @@ def build_input(inp):
         init = InitialStateContainer.from_ordered_list([S.ZERO] * d)
         desc = RepetitionCodeDescription.from_connectivity([QubitIDObj(q) for q in sub], LAYOUTS[name]())
         return construct_repetition_code_circuit(qec_cycles=cycles, description=desc, initial_state=init)
+    if kind == 'composite':
+        _, name, sub, cycles, excluded, only_required = inp
+        d = (len(sub) + 1) // 2
+        init = InitialStateContainer.from_ordered_list([S.ZERO] * d)
+        ids = [QubitIDObj(q) for q in sub]
+        lay = LAYOUTS[name]()
+        base = RepetitionCodeDescription.from_connectivity(ids, lay)
+        desc = CompositeRepetitionCodeDescription(_base_description=base, _qubit_index_map={q: i for i, q in enumerate(ids)}, _connectivity=lay,
+                                                 _exclude_gate_edge_ids=[EdgeIDObj(QubitIDObj(excluded[0]), QubitIDObj(excluded[1]))],
+                                                 _only_required_parking_operations=only_required)
+        return construct_repetition_code_circuit(qec_cycles=cycles, description=desc, initial_state=init)
     if kind == 'calibration':
         _, ty, nq = inp
         qs = [QubitIDObj('D%d' % (i + 1)) for i in range(nq)]
@@ -87,6 +99,16 @@ def inputs(tier):
             for start in range(0, nd - d + 1):
                 for c in ((0, 1, 2, 4) if d == 2 or tier != 'quick' else (1, 3)):
                     out.append(('layout', name, tuple(chain[2 * start: 2 * (start + d) - 1]), c))
+    # composite descriptions: one excluded gate edge of the chain, static or only-required parking
+    for name in LAYOUTS:
+        chain = chain_of(LAYOUTS[name]())
+        nd = (len(chain) + 1) // 2
+        for d in ((3,) if tier == 'quick' else (2, 3, 4)):
+            for start in range(0, nd - d + 1):
+                sub = tuple(chain[2 * start: 2 * (start + d) - 1])
+                for e in range(len(sub) - 1):
+                    for only_required in ((False,) if tier == 'quick' and e % 2 else (False, True)):
+                        out.append(('composite', name, sub, 2, (sub[e], sub[e + 1]), only_required))
     for ty in ('QUBIT', 'QUTRIT'):
         for nq in (1, 2, 3, 4):
             out.append(('calibration', ty, nq))
@@ -97,7 +119,7 @@ class OverlapFamily(Family):
     def __init__(self, tier):
         self.vals = (1.0, 2.0, 3.0) if tier == 'quick' else (0.5, 1.0, 2.0, 3.5)
         self.name = 'library-overlap'
-        self.rule = ('constructor inputs (chain and simplified constructors, layout sub-chains, calibration QUBIT/QUTRIT for 1..4 qubits) x every assignment of %r to (readout, microwave, flux, reset); '
+        self.rule = ('constructor inputs (chain and simplified constructors, layout sub-chains, composite descriptions with one excluded gate edge, calibration QUBIT/QUTRIT for 1..4 qubits) x every assignment of %r to (readout, microwave, flux, reset) (composite descriptions: microwave x flux only); '
                      'each circuit as constructed and after apply_modifiers(); non-trivial = the four durations are not all equal' % (list(self.vals),))
         self._inputs = inputs(tier)
 
@@ -105,11 +127,18 @@ class OverlapFamily(Family):
         return list(range(len(self._inputs)))
 
     def cases(self, tier, shard):
+        inp = self._inputs[shard]
+        if inp[0] == 'composite':
+            # composite descriptions are expensive to evaluate (~0.5 s): microwave x flux over all values, readout and reset fixed
+            for mw, fl in itertools.product(self.vals, repeat=2):
+                yield (inp, (2.0, mw, fl, 2.0))
+            return
         for cfg in itertools.product(self.vals, repeat=4):
-            yield (self._inputs[shard], cfg)
+            yield (inp, cfg)
 
     def describe(self, tier):
-        return {'inputs': len(self._inputs), 'configurations': len(self.vals) ** 4, 'values': list(self.vals)}
+        return {'inputs': len(self._inputs), 'configurations': len(self.vals) ** 4, 'values': list(self.vals),
+                'composite_inputs': sum(1 for i in self._inputs if i[0] == 'composite'), 'composite_configurations': len(self.vals) ** 2}
 
     def run(self, case):
         inp, cfgv = case
